@@ -29,6 +29,14 @@ UseArgs(c) == CASE c = "maxAlloc"      -> {15}
 MCOpsOf(t) == (IF Model \in {"mq", "hq"} /\ t = 3 THEN {} ELSE {[op |-> "set", c |-> c, arg |-> Cand(c, t)] : c \in MCCells})
               \cup UNION {{[op |-> "use", c |-> c, arg |-> a] : a \in UseArgs(c)} : c \in MCCells}
 
+\* Settings refines the atomic contract (AtomicSettings): an initialiser in flight has abstractly not happened yet,
+\* Finish is the abstract GetOrInit, Begin stutters.
+AbsCell == [c \in Cells |-> IF cell[c].st = "running" THEN Unset ELSE cell[c]]
+AbsTh   == [t \in Threads |-> [th[t] EXCEPT !.run = "none"]]
+Atomic == INSTANCE AtomicSettings WITH acell <- AbsCell, ath <- AbsTh, InitValueOf <- InitValue, TouchesOf <- Touches,
+                                       IsCall <- IsOp, NoCall <- NoOp
+Linearizable == Atomic!ASpec
+
 \* the program executed so far, per thread, in call order (from the history of completed calls)
 ProgOf(t) == LET H == {h \in hist : h.t = t} IN [i \in 1..Cardinality(H) |-> (CHOOSE h \in H : h.n = i - 1).op]
 Emit == Quiescent /\ hist # {} => PrintT("SCN " \o ToJson([threads |-> [t \in 1..3 |-> ProgOf(t)]]))
